@@ -1,7 +1,7 @@
 """Shared description of the event-loop model family (C01, C02, C04, C07, C08, C18)."""
 
 LOOP_SWAP = ["eventloop_unix.go", "connection_unix.go", "connection_linux.go", "acceptor_unix.go",
-             "listener_unix.go", "pkg/netpoll/poller_epoll_default.go", "pkg/io/io_linux.go",
+             "listener_unix.go", "client_unix.go", "pkg/netpoll/poller_epoll_default.go", "pkg/io/io_linux.go",
              "pkg/socket/sock_cloexec.go", "pkg/socket/fd_unix.go"]
 
 
